@@ -436,9 +436,15 @@ int main(int argc, char *argv[])
       else
     if (strcmp(argv[i], "-disasm_range") == 0)
     {
+       i++;
+       if (i >= argc)
+       {
+         printf("Error: -disasm_range needs a range\n");
+         exit(1);
+       }
        command = "disasm";
        command += ' ';
-       command += argv[++i];
+       command += argv[i];
        mode = MODE_DISASM;
     }
       else
@@ -544,6 +550,7 @@ int main(int argc, char *argv[])
       util_context.memory.high_address);
   }
     else
+  if (cpu_name != NULL)
   {
     util_context.set_cpu_by_name(cpu_name);
   }
